@@ -296,6 +296,9 @@ def run_point(pt):
         return ["evo_ape failed (%s: %s) for a valid request" %
                 (res.outcome(), res.exc)], "failed"
     r = file_interface.load_res_file(out)
+    if "error_array" not in r.np_arrays:
+        return ["the saved result holds no error values (arrays: %s)" %
+                sorted(r.np_arrays)], "values"
     err = np.array(r.np_arrays["error_array"], dtype=float)
     msgs = []
     if err.shape != exp.shape:
